@@ -214,40 +214,44 @@ Definition await_instance (hc : bool) (f : fault) (cs : conds) (s : inst) : awai
            A (d, v, true) [EProvDelete a] (match a with PNotFound => ROk | _ => RAfter5 end)
        end.
 
+(* errors of the pod list / PVC Gets inside filterVolumeAttachments (reached only when attachments exist) *)
+Definition va_lookup_err (i : Z) (w : world) (f : fault) : bool :=
+  match vas_on i w with
+  | [] => false
+  | _ => match fails f SListPodsVA with
+         | Some _ => true
+         | None => match fails f SGetPVC with
+                   | Some KNotFound => false
+                   | Some _ => pvc_lookups i w
+                   | None => false
+                   end
+         end
+  end.
+(* an injected NotFound on the PVC Gets hides every shielding PVC *)
+Definition va_shield (i : Z) (w : world) (f : fault) : list Z :=
+  match fails f SGetPVC with Some KNotFound => [] | _ => shielded_pvs i w end.
+
 Definition await_volumes (hc : bool) (i : Z) (w : world) (f : fault) (dl : option Z) (cs : conds) : awaited :=
   let '(d, v, t) := cs in
-  let stop r := A cs [] r in
-  match fails f SListVAs with Some _ => stop RErr | None =>
-  let lookup_err :=
-    match vas_on i w with
-    | [] => false
-    | _ => match fails f SListPodsVA with
-           | Some _ => true
-           | None => match fails f SGetPVC with
-                     | Some KNotFound => false
-                     | Some _ => pvc_lookups i w
-                     | None => false
-                     end
-           end
-    end in
-  if lookup_err then stop RErr else
-  (* an injected NotFound on the PVC Gets hides every shielding PVC *)
-  let sh := match fails f SGetPVC with Some KNotFound => [] | _ => shielded_pvs i w end in
-  let pend := filter (blocking sh) (vas_on i w) in
-  match pend with
+  match fails f SListVAs with Some _ => A cs [] RErr | None =>
+  if va_lookup_err i w f then A cs [] RErr else
+  match filter (blocking (va_shield i w f)) (vas_on i w) with
   | [] => await_instance hc f (d, (if hc then VTrue else v), t) (w_inst w)
   | _ => if elapsed (w_now w) dl
          then await_instance hc f (d, (if hc then VFalse else v), t) (w_inst w)
          else A (d, (if hc then VUnknown else v), t) [] RAfter1
   end end.
 
+(* MinDrainTime: the Drained condition must have been Unknown for five seconds *)
+Definition min_drain_wait (hc : bool) (now : Z) (d : dcond) : bool :=
+  hc && match d with DUnknown s => now - s <? 5 | DNone => true | DTrue => false end.
+
 Definition await_drain (hc : bool) (i : Z) (w : world) (f : fault) (dl : option Z) (cs : conds) : awaited :=
   let '(d, v, t) := cs in
   let d1 := if hc then match d with DNone => DUnknown (w_now w) | x => x end else d in
   match fails f SListPods with Some _ => A (d1, v, t) [] RErr | None =>
   if negb (drain_done i w) then A (d1, v, t) [] RAfter1
-  else if hc && match d1 with DUnknown s => w_now w - s <? 5 | DNone => true | DTrue => false end
-       then A (d1, v, t) [] RAfter1
+  else if min_drain_wait hc (w_now w) d1 then A (d1, v, t) [] RAfter1
        else await_volumes hc i w f dl ((if hc then DTrue else d1), v, t)
   end.
 
@@ -294,47 +298,52 @@ Definition node_tail (w : world) (i : Z) (f : fault) (oc : option claim) (dl : o
       end
   end.
 
+(* Delete the NodeClaim if it is not deleting yet: effects, hard error, in-memory copy stale, object gone *)
+Definition del_claim_step (oc : option claim) (f : fault) : list eff * bool * bool * bool :=
+  match oc with
+  | Some c =>
+      if is_some (c_del c) then ([], false, false, false)
+      else match fails f SDelClaim with
+           | Some KNotFound => ([EDelClaim false], false, false, false)
+           | Some _ => ([EDelClaim false], true, false, false)
+           | None => ([EDelClaim true], false, true, negb (c_fin c))
+           end
+  | None => ([], false, false, false)
+  end.
+
+(* not Ready: ask the provider; Some true = instance gone (finish at once), Some false = error *)
+Definition not_ready_step (n : node) (s0 : inst) (f : fault) : list eff * option bool :=
+  if n_ready n then ([], None)
+  else match fails f SProvGet with
+       | Some _ => ([EProvGet PErr], Some false)
+       | None => match prov_get s0 with
+                 | PNotFound => ([EProvGet PNotFound], Some true)
+                 | a => ([EProvGet a], None)
+                 end
+       end.
+
+(* Terminator.Taint: patch only when the taint or the load-balancer label is missing *)
+Definition taint_step (n : node) (f : fault) : list eff * option res :=
+  if n_taint n && n_lbl n then ([], None)
+  else match fails f STaint with
+       | Some KConflict => ([ETaint (n_id n) false], Some RRequeue)
+       | Some _ => ([ETaint (n_id n) false], Some RErr)
+       | None => ([ETaint (n_id n) true], None)
+       end.
+
 Definition node_finalize (w : world) (n : node) (f : fault) : list eff * res :=
   let i := n_id n in
-  let s0 := w_inst w in
   match fails f SListClaims with Some _ => ([], RErr) | None =>
   let oc := visible_claim w in
-  (* Delete the NodeClaim if it is not deleting yet *)
-  let '(e1, stop1, stale, cgone) :=
-    match oc with
-    | Some c =>
-        if is_some (c_del c) then ([], false, false, false)
-        else match fails f SDelClaim with
-             | Some KNotFound => ([EDelClaim false], false, false, false)
-             | Some _ => ([EDelClaim false], true, false, false)
-             | None => ([EDelClaim true], false, true, negb (c_fin c))
-             end
-    | None => ([], false, false, false)
-    end in
+  let '(e1, stop1, stale, cgone) := del_claim_step oc f in
   if stop1 then (e1, RErr) else
-  (* not Ready: ask the provider, finish at once when the instance is gone *)
-  let '(e2, short) :=
-    if n_ready n then ([], None)
-    else match fails f SProvGet with
-         | Some _ => ([EProvGet PErr], Some false)
-         | None => match prov_get s0 with
-                   | PNotFound => ([EProvGet PNotFound], Some true)
-                   | a => ([EProvGet a], None)
-                   end
-         end in
+  let '(e2, short) := not_ready_step n (w_inst w) f in
   match short with
   | Some false => (e1 ++ e2, RErr)
   | Some true => let '(e, r) := rm_node_fin i f in ((e1 ++ e2) ++ e, r)
   | None =>
   match term_time oc with None => (e1 ++ e2, RErr) | Some dl =>
-  (* Terminator.Taint *)
-  let '(e3, stop3) :=
-    if n_taint n && n_lbl n then ([], None)
-    else match fails f STaint with
-         | Some KConflict => ([ETaint i false], Some RRequeue)
-         | Some _ => ([ETaint i false], Some RErr)
-         | None => ([ETaint i true], None)
-         end in
+  let '(e3, stop3) := taint_step n f in
   match stop3 with
   | Some r => ((e1 ++ e2) ++ e3, r)
   | None => let '(et, r) := node_tail w i f oc dl cgone stale in ((e1 ++ e2) ++ e3 ++ et, r)
